@@ -8,7 +8,8 @@ PROPS["C16"] = P(
     "all-zeros/all-ones in the two XOR fields, inputs whose fixed-point product is the first/last vertex of the first/last segment (smallest and largest such input, +-1), sort-key boundaries, "
     "and 3000..10^5 random signatures (also sparse/dense/shifted words); per signature: shard() = top bits = Sig::high_bits, shard < num_shards, the 3 vertices of edge() inside the array and inside "
     "the shard's slice, pairwise distinct, = local_edge(local_sig()) + shard base, local_edge < num_vertices and distinct, sort_key < num_sort_keys. Set-ups rejected by the documented capacity "
-    "assertion of set_up_graphs are counted (notes) and not judged. distinct_nontrivial = distinct tuples of reachable set-ups (variant, shard_high_bits, num_vertices, num_sort_keys) judged in a case",
+    "assertion of set_up_graphs are counted (notes) and not judged. distinct_nontrivial = distinct tuples of reachable set-ups (variant, shard_high_bits, num_vertices, num_sort_keys) judged in a case"
+    ' Largest shards far below the average in the lazy-Gaussian regime. ',
     dict(builds=["DBG", "UBC"]),
     dict(builds=["DBG", "UBC"]),
     hang="violation",
